@@ -150,7 +150,9 @@ impl<R: BufRead + Seek + Position> ReadValue for ValueReader<R> {
     }
 
     fn skip(&mut self, len: usize) -> Result<(), ProtobufError> {
-        self.inner.seek_relative(len as i64)?;
+        // Lengths above `i64::MAX` would turn into a backwards seek.
+        let offset = i64::try_from(len).map_err(|_| ProtobufError::new(ErrorKind::Eof))?;
+        self.inner.seek_relative(offset)?;
         Ok(())
     }
 
